@@ -167,6 +167,8 @@ def run(rep, rng, tier):
         a = (tt / tt[-1]) ** 2 * (np.sin(2 * np.pi * rng.uniform(0.5, 3.0) * tt) + 0.5 * np.sin(2 * np.pi * rng.uniform(3.0, 9.0) * tt + 1.0))
         dt = 0.01
         nper = rng.randint(1050, 1250)
+        if k % 2 == 0:      # more than 2^23 state entries (periods x samples) in the batch, far fewer in the single-period calls
+            nper = (2 ** 23) // n + rng.randint(20, 200)
         periods = list(np.linspace(0.05, 4.0, nper))
         idx = sorted(rng.sample(range(nper), 4))
         xi = 0.05
